@@ -756,3 +756,5 @@ M('sweep-cli-default-source-not-recorded', ['C12'], CLI, "        source_by_id[c
 M('sweep-cli-nonempty-sources-deleted', ['C12'], CLI, "            \"sources\" in config and not config.sources\n", "            \"sources\" in config and config.sources\n", ['C12.R14'])
 M('sweep-cli-rewrites-not-written-back', ['C12'], CLI, "        config.sources = \", \".join(sources)\n", "", ['C12.R14'])
 M('sweep-cli-rewrite-loop-skips-filters-with-sources', ['C12'], CLI, "        if not (sources := split_commas_maybe(config.sources)):\n            continue\n\n        for i, source in enumerate(sources):", "        if (sources := split_commas_maybe(config.sources)):\n            continue\n\n        for i, source in enumerate(sources):", ['C12.R14'])
+M('sweep-bridge-raw-data-when-switched-off', ['C16'], BR, "            if self._export_raw_data and hasattr(self._lineage, '_last_frame_data'):", "            if not (self._export_raw_data and hasattr(self._lineage, '_last_frame_data')):", ['C16.R10'])
+M('sweep-bridge-raw-data-unconditional', ['C16'], BR, "            if self._export_raw_data and hasattr(self._lineage, '_last_frame_data'):", "            if hasattr(self._lineage, '_last_frame_data'):", ['C16.R10'])
